@@ -150,11 +150,11 @@ func genCase(bigPosOnly bool) func(t *rapid.T) Case {
 func init() {
 	vf.Register(
 		vf.Sub[Case]{Name: "trees", Quick: 30000, Thorough: 400000, Gen: genCase(true), Check: check, Floor: 0.4,
-			Rule: "formula trees of depth <=5 over <=9 names: variables, constants, not, n-ary and/or with 0..4 children, implies, eq, xor, exactly-one groups of 1..9 distinct names (groups of >4 names only at positive polarity: the open finding c11-negated-big-unique covers the rest); oracle = own evaluator over all assignments; nil <=> unsatisfiable, returned assignment completed in every way on omitted names satisfies the formula; non-trivial = a conjunction nested under a disjunction (auxiliary variable) or an exactly-one group"},
+			Rule: "formula trees of depth <=5 over <=9 names: variables, constants, not, n-ary and/or with 0..4 children, implies, eq, xor, exactly-one groups of 1..9 distinct names (groups of >4 names only at positive polarity in this sub-check); oracle = own evaluator over all assignments; nil <=> unsatisfiable, returned assignment completed in every way on omitted names satisfies the formula; non-trivial = a conjunction nested under a disjunction (auxiliary variable) or an exactly-one group"},
 	)
 	vf.Register(
-		vf.Sub[Case]{Name: "trees-any-polarity", Quick: 2000, Thorough: 20000, Gen: genCase(false), Check: check, Floor: 0.4,
-			Rule: "same trees with exactly-one groups of any size at any polarity; failures whose formula holds a group of >4 names at a non-positive polarity are attributed to the open finding, any other failure is a violation"},
+		vf.Sub[Case]{Name: "trees-any-polarity", Quick: 20000, Thorough: 300000, Gen: genCase(false), Check: check, Floor: 0.4,
+			Rule: "same trees with exactly-one groups of any size at any polarity; a failure on a formula that holds a group of >4 names at a non-positive polarity is tagged [big-unique-negated] (the signature of the finding c11-negated-big-unique, fixed since: the tag suppresses nothing)"},
 	)
 }
 
